@@ -29,7 +29,11 @@ RULE = ('fault enumeration: for k<=4 scripted providers every assignment of outc
         'provider health, from a fresh sqlite cache; request windows: one block of five transactions is '
         'requested through every (parse_transactions, page, limit, id form) window that cuts it differently, '
         'so the cache is filled through one window and read through another (page absent / partly / completely '
-        'cached).  A state is a distinct (configuration, fault '
+        'cached); batched queries: getbalance over address lists of every shape (number of addresses x '
+        'addresses_per_request: one request, one address per request, a last request of exactly one address, '
+        'r == n, r > n, six addresses with the default five) in several address orders, inside cache histories, the '
+        'total compared with the provider answers for exactly the requests made plus the cached balances of the '
+        'addresses not requested, and the cached record of every address inspected after every query.  A state is a distinct (configuration, fault '
         'assignment, cache state) combination, a transition is one Service call executed on the real '
         'code, every executed call is compared with the reference failover function / cache model; an '
         'evaluation is non-trivial when at least one provider method was invoked or a cached answer was served')
@@ -55,6 +59,14 @@ ASSUMPTIONS = [
     'the property, recorded as outcome only',
     'confirmations of a cached transaction are recomputed from the block count and are not compared',
     'getbalance adds up per-request answers; a falsy answer (None) counted as 0 is accepted',
+    'getbalance over a list: how the list is cut into provider requests is free as long as no request holds more '
+    'than addresses_per_request addresses (documented maximum), every address is counted exactly once (in one '
+    'answered request, or - when it was in no request - with a balance the cache may hold for it: an answer to an '
+    'earlier request of this address alone, or the balance of the provider chain after its history / utxo list '
+    'was fetched), and the total is the sum of exactly these; which addresses are written to the cache is free, '
+    'but a cached balance must be a balance of that address.  Lists with a repeated address and '
+    'addresses_per_request <= 0 are not enumerated (0 never terminates on the unchanged tree: the list is not '
+    'consumed; the property text says nothing about it)',
     'the cached per-address record (balance, n_utxos, n_txs as returned by getcacheaddressinfo) is inspected after '
     'every query of the addr/bal history families for the addresses Y and W: a falsy balance / None counts as '
     '"unknown", any other figure must be the provider chain\'s or a stored getbalance answer',
@@ -1271,7 +1283,9 @@ class CacheModel(object):
         self.bc_db = None   # (set of values the stored count may have, expiry)
         self.bc_mem = None  # (set of values, time) in-memory copy of the current Service instance
         self.bc_seen = set()
-        self.bal = {}       # address -> set of balances a provider answered
+        self.bal = {}       # address -> set of balances a provider answered for a request of this address alone
+        self.computed = set()   # addresses whose balance the cache may have computed from a stored history / utxo list
+        self.multi = set()  # totals over two or more addresses (answers to multi-address requests, running totals)
 
     def note_blockcount_queries(self, pe, clock, fresh_instance=False):
         """Block count queries (also those made inside other calls) refresh the stored and in-memory copy;
@@ -1295,7 +1309,7 @@ class CacheModel(object):
                 sorted((k, v[0], v[1] > clock) for k, v in self.fee.items()),
                 None if not self.bc_db else [sorted(self.bc_db[0]), self.bc_db[1] > clock],
                 None if not self.bc_mem else [sorted(self.bc_mem[0]), clock - self.bc_mem[1] <= 3],
-                sorted((k, sorted(v)) for k, v in self.bal.items())]
+                sorted((k, sorted(v)) for k, v in self.bal.items()), sorted(self.computed)]
 
 
 def _tx_match(net, got, name, allowed, cmp_keys=TX_CMP):
@@ -1440,6 +1454,143 @@ def judge_blockcount(obs, outc, order, maxp, maxe, model, clock, health, fresh_i
     return 'answer', None
 
 
+# ---------------------------------------------------------------------------------------- batched balance queries
+ADDR = {'X': 'X', 'Y': 'Y', 'W': 'W', 'Z': 'Z', 'V': 'V', 'U': 'V2'}
+APR_DEFAULT = 5         # documented default of addresses_per_request
+
+
+def _addr(c, letter):
+    return getattr(c, ADDR[letter])
+
+
+def bal_event_args(c, key):
+    """Arguments of a getbalance event.  key: '<letters>' (address list, addresses_per_request not passed) or
+    '<letters>:<n>' (addresses_per_request=n)."""
+    letters, _, apr = key.partition(':')
+    lst = [_addr(c, x) for x in letters]
+    return (lst, int(apr)) if apr else (lst,)
+
+
+def ref_balance_totals(addresses, rounds, cached):
+    """Reference for a balance query over a list of addresses that is split over several provider requests and
+    partly answered from the cache.
+
+    addresses: the distinct addresses asked for; rounds: [[request list, answer of the responding provider]] of the
+    answered provider requests; cached: address -> set of balances the cache may serve for it.
+    The total is the sum of the provider answers plus, for every address that was in no request, one balance the
+    cache may hold for it; every address is counted exactly once.  Returns (set of admissible totals, problem)."""
+    cnt = dict((a, 0) for a in addresses)
+    for req, _ in rounds:
+        for a in req:
+            if a not in cnt:
+                return set(), 'request|address_that_was_not_asked_for'
+            cnt[a] += 1
+    if any(v > 1 for v in cnt.values()):
+        return set(), 'request|address_requested_twice'
+    totals = set([sum(ans for _, ans in rounds)])
+    for a in addresses:
+        if not cnt[a]:
+            if not cached.get(a):
+                return set(), 'value|address_neither_requested_nor_cached'
+            totals = set(t + v for t in totals for v in cached[a])
+    return totals, None
+
+
+def classify_wrong_total(val, totals, addresses, rounds, cached, truth_of):
+    """Name how a returned total differs from the admissible ones."""
+    if isinstance(val, bool) or not isinstance(val, int):
+        return 'value|total_not_a_number'
+    per_addr = []
+    for a in addresses:
+        vals = set(cached.get(a, ()))
+        for req, ans in rounds:
+            if a in req and len(req) == 1:
+                vals.add(ans)
+            elif a in req:
+                vals |= set(truth_of(a, p) for p in range(KMAX))
+        per_addr.append(vals)
+    if any(val + v in totals for vs in per_addr for v in vs if v):
+        return 'value|address_left_out_of_the_total'
+    if any(val - v in totals for vs in per_addr for v in vs if v):
+        return 'value|address_counted_twice'
+    return 'value|total_differs_from_provider_and_cached_answers'
+
+
+def judge_getbalance(c, net, args, obs, model, outc, order, maxp, maxe):
+    """getbalance(address list[, addresses_per_request]) inside a cache history that did not fail.
+    Returns (label, deviation class or None, detail)."""
+    addresses = list(args[0])
+    apr = args[1] if len(args) > 1 else APR_DEFAULT
+    single = len(addresses) == 1
+    val = obs['ret']
+    name_of = dict((_addr(c, x), x) for x in ADDR)
+    rounds, unanswered, requests = [], [], []
+    for rec in obs['recs']:
+        entries = [l for l in obs['log'][rec['log0']:rec['log1']] if l[1] == 'getbalance']
+        if not entries or not entries[0][3][0]:
+            continue            # nobody asked, or asked for an empty list (everything was served from the cache)
+        req = list(entries[0][3][0])
+        if any(list(l[3][0]) != req for l in entries):
+            return 'dev', 'request|providers_of_one_query_asked_for_different_lists', {}
+        requests.append([name_of.get(a, a) for a in req])
+        if len(req) > apr:
+            return 'dev', 'request|more_addresses_than_addresses_per_request', {'requests': requests, 'limit': apr}
+        if rec['results']:
+            p = rec['results'][0]
+            rounds.append([req, ok_value('getbalance', p, (req,), net), p])
+        else:
+            unanswered.append(req)
+    cached = {}
+    for a in addresses:
+        adm = set(model.bal.get(a, ()))
+        if a in model.computed:
+            adm.add(chain_balance(c, a))
+        cached[a] = adm
+    detail = {'addresses': [name_of.get(a, a) for a in addresses], 'addresses_per_request': apr,
+              'provider_requests': requests, 'answers': [[r[2], r[1]] for r in rounds]}
+    if unanswered:
+        # a request that no provider answered: the call had to fail
+        t = ref_failover(order, outc, maxp, maxe)
+        cause = 'error_limit' if t[0]['abort'] else 'no_answer'
+        rest = [a for a in addresses if not any(a in req for req in unanswered)]
+        totals, _ = ref_balance_totals(rest, [r[:2] for r in rounds], cached)
+        if not isinstance(val, bool) and val == 0 and not rounds and (not rest or 0 in totals):
+            return 'dev', '%s|returns_0' % cause, detail
+        if not isinstance(val, bool) and val in totals:
+            return 'dev', '%s|partial_sum_of_answered_chunks' % cause, detail
+        return 'dev', '%s|returns_other' % cause, detail
+    totals, problem = ref_balance_totals(addresses, [r[:2] for r in rounds], cached)
+    detail['admissible'] = sorted(totals)[:8]
+    if isinstance(val, bool) or val not in totals:
+        if single:
+            return 'dev', 'value|balance_no_provider_returned_nor_stored', detail
+        if problem:
+            return 'dev', problem, detail
+        return 'dev', classify_wrong_total(val, totals, addresses, [r[:2] for r in rounds], cached,
+                                           lambda a, p: chain_balance(c, a) + 7 + p), detail
+    # ---- model update: an answer to a request of one address alone is a balance a provider reported for it
+    for req, ans, p in rounds:
+        if len(req) == 1:
+            model.bal.setdefault(req[0], set()).add(ans)
+        else:
+            model.multi.add(ans)
+    if not single:
+        # running totals over two or more addresses (in the order cache part, then the requests)
+        covered = len(addresses) - sum(len(r[0]) for r in rounds)
+        run = val - sum(r[1] for r in rounds)
+        if covered > 1:
+            model.multi.add(run)
+        for req, ans, p in rounds:
+            covered += len(req)
+            run += ans
+            if covered > 1:
+                model.multi.add(run)
+    if not rounds:
+        return 'cache', None, {}
+    served = len(addresses) - sum(len(r[0]) for r in rounds)
+    return ('answer' if single or not served else 'answer+cache'), None, {}
+
+
 def sub_hist(case):
     """Histories of Service calls over one sqlite cache.  case: {family, net, cfg, hists: [[event...]...]}
     event: ['Q', method, key, health] | ['T', seconds] | ['R', health]"""
@@ -1530,8 +1681,8 @@ def sub_hist(case):
                     nt.append(tag)
                 lab = '%s:%s' % (method, (label or 'dev').split(':')[0])
                 outs[lab] = outs.get(lab, 0) + 1
-                if not dev and case['family'] in ('addr', 'bal') and ev[0] == 'Q':
-                    rdev, rdetail = judge_address_records(srv, model, c, ('Y', 'W'))
+                if not dev and case['family'] in RECORD_ADDRESSES and ev[0] == 'Q':
+                    rdev, rdetail = judge_address_records(srv, model, c, *RECORD_ADDRESSES[case['family']])
                     if rdev:
                         dev, detail = rdev, rdetail
                         method = 'after_' + method
@@ -1552,13 +1703,17 @@ def sub_hist(case):
             'traces': len(case['hists'])}
 
 
-def judge_address_records(srv, model, c, addresses):
+RECORD_ADDRESSES = {'addr': (('Y', 'W'), ()), 'bal': (('Y', 'W'), ()), 'batch': (('Y', 'W', 'Z', 'X'), ('V', 'U'))}
+
+
+def judge_address_records(srv, model, c, addresses, balance_only=()):
     """The cached per-address summary (what getcacheaddressinfo / the cache path of getbalance serve) must hold
     figures that a provider reported for that address or that follow from the stored provider answers: the
-    balance is unknown (falsy) or the balance of the provider chain or a stored getbalance answer; n_utxos is
-    unknown or the number of unspent outputs; n_txs is unknown or the number of transactions of the address."""
-    for name in addresses:
-        address = getattr(c, name)
+    balance is unknown (falsy) or the balance of the provider chain or a stored getbalance answer for this address
+    alone; n_utxos is unknown or the number of unspent outputs; n_txs is unknown or the number of transactions of
+    the address (the two counts are not looked at for the addresses in balance_only)."""
+    for name in tuple(addresses) + tuple(balance_only):
+        address = _addr(c, name)
         try:
             info = srv.getcacheaddressinfo(address)
         except Exception as e:
@@ -1569,8 +1724,11 @@ def judge_address_records(srv, model, c, addresses):
             utx = [u[2] for u in addr_utxos(c, address)]
             partial = any(bal == sum(utx[i:]) for i in range(1, len(utx)))
             return 'cached_address_record|%s' % ('balance_is_partial_sum_of_unspent_outputs' if partial else
-                                                  'balance_no_provider_reported_nor_stored'), \
+                                                  'balance_is_total_over_several_addresses' if bal in model.multi
+                                                  else 'balance_no_provider_reported_nor_stored'), \
                 {'address': name, 'info': {k: v for k, v in info.items() if k != 'address'}, 'admissible': sorted(adm)}
+        if name in balance_only:
+            continue
         if info.get('n_utxos') is not None and info['n_utxos'] != len(addr_utxos(c, address)):
             return 'cached_address_record|n_utxos_differs_from_provider_answers', \
                 {'address': name, 'info': {k: v for k, v in info.items() if k != 'address'},
@@ -1611,11 +1769,11 @@ def hist_query(srv, model, net, c, method, key, health, outc, order, maxp, maxe,
     elif method == 'getblock':
         args = block_event_args(key)
     elif method == 'gettransactions':
-        args = (getattr(c, key[0]), '', int(key[1:]))
+        args = (_addr(c, key[0]), '', int(key[1:]))
     elif method == 'getutxos':
-        args = (getattr(c, key[0]),) if len(key) == 1 else (getattr(c, key[0]), '', int(key[1:]))
+        args = (_addr(c, key[0]),) if len(key) == 1 else (_addr(c, key[0]), '', int(key[1:]))
     elif method == 'getbalance':
-        args = ([getattr(c, key)],)
+        args = bal_event_args(c, key)
     else:
         raise HarnessBug(method)
     obs = run_call(call_method(srv, method, args), method)
@@ -1722,6 +1880,7 @@ def hist_query(srv, model, net, c, method, key, health, outc, order, maxp, maxe,
                 if l[1] == 'gettransactions' and l[2] == 'ok':
                     for name in ref_history_after(c, l[3][0], l[3][1])[:l[3][2]]:
                         model.tx.setdefault(c.txs[name]['txid'], set()).add(('ok', l[0]))
+        model.computed.add(address)
         return ('answer' if recs else 'cache'), None, {}, obs
     if method == 'getutxos':
         exp = [[u[0], u[1], u[2]] for u in addr_utxos(c, args[0])]
@@ -1738,22 +1897,11 @@ def hist_query(srv, model, net, c, method, key, health, outc, order, maxp, maxe,
             if all(g in exp for g in got):
                 return 'dev', 'list|utxos_missing', detail, obs
             return 'dev', 'list|other_utxos', detail, obs
+        model.computed.add(args[0])
         return ('answer' if recs else 'cache'), None, {}, obs
     if method == 'getbalance':
-        address = args[0][0]
-        truth = chain_balance(c, address)
-        asked = [l for l in obs['log'] if l[1] == 'getbalance' and l[2] == 'ok' and l[3][0]]
-        adm = set([truth]) | set(model.bal.get(address, ()))
-        if asked and answerer is not None:
-            adm = set([truth + 7 + answerer])
-        if isinstance(val, bool) or val not in adm:
-            t = ref_failover(order, outc, maxp, maxe)
-            if recs and all(x['answer'] is None for x in t) and val == 0:
-                return 'dev', '%s|returns_0' % ('error_limit' if t[0]['abort'] else 'no_answer'), {}, obs
-            return 'dev', 'value|balance_no_provider_returned_nor_stored', {'admissible': sorted(adm)}, obs
-        if asked and answerer is not None:
-            model.bal.setdefault(address, set()).add(val)
-        return ('answer' if asked else 'cache'), None, {}, obs
+        label, dev, detail = judge_getbalance(c, net, args, obs, model, outc, order, maxp, maxe)
+        return label, dev, detail, obs
     raise HarnessBug(method)
 
 
@@ -1817,6 +1965,27 @@ def selftest():
     assert block_request((block_hash(BLOCK_H), True, 2, 3)) == (BLOCK_H, True, 2, 3)
     assert block_event_args('101') == (101,) and block_event_args('110:T:2:3') == (110, True, 2, 3)
     assert block_event_args('110:F:1:N') == (110, False, 1) and block_event_args('h110:T:1:N')[0] == block_hash(110)
+    # batched balance reference, hand-computed: requests [a, b] -> 30 and [c] -> 5, nothing cached
+    c0 = f.by_net[NET]
+    assert bal_event_args(c0, 'YWZ:2') == ([c0.Y, c0.W, c0.Z], 2) and bal_event_args(c0, 'UZ') == ([c0.V2, c0.Z],)
+    assert ref_balance_totals(['a', 'b', 'c'], [[['a', 'b'], 30], [['c'], 5]], {}) == (set([35]), None)
+    # c served from the cache, which may hold 5 or 6 for it
+    assert ref_balance_totals(['a', 'b', 'c'], [[['a', 'b'], 30]], {'c': set([5, 6])}) == (set([35, 36]), None)
+    assert ref_balance_totals(['a', 'b'], [[['a'], 10]], {})[1] == 'value|address_neither_requested_nor_cached'
+    assert ref_balance_totals(['a', 'b'], [[['a', 'b'], 30], [['b'], 20]], {})[1] == 'request|address_requested_twice'
+    assert ref_balance_totals(['a'], [[['a', 'z'], 30]], {})[1] == 'request|address_that_was_not_asked_for'
+    assert ref_balance_totals(['a'], [], {'a': set([0])}) == (set([0]), None)
+    tr = lambda a, p: {'a': 10, 'b': 20, 'c': 5}[a]
+    rr = [[['a', 'b'], 30], [['c'], 5]]
+    assert classify_wrong_total(30, set([35]), ['a', 'b', 'c'], rr, {}, tr) == 'value|address_left_out_of_the_total'
+    assert classify_wrong_total(45, set([35]), ['a', 'b', 'c'], rr, {}, tr) == 'value|address_counted_twice'
+    assert classify_wrong_total(1, set([35]), ['a', 'b', 'c'], rr, {}, tr) == \
+        'value|total_differs_from_provider_and_cached_answers'
+    # the six addresses of the fixture are distinct and a provider's balances tell the addresses with funds apart
+    assert len(set(_addr(c0, x) for x in ADDR)) == len(ADDR) == 6
+    assert len(set(chain_balance(c0, _addr(c0, x)) for x in 'YWZ')) == 3
+    assert len(batch_thorough_alphabet()) == len(set(json.dumps(e) for e in batch_thorough_alphabet()))
+    assert len(FAMILIES['batch']) == len(set(json.dumps(e) for e in FAMILIES['batch']))
     assert len(prio_vectors(3)) == 13 and len(prio_vectors(4)) == 75
     assert len(assignments(4, MAIN)) == 6 ** 4 and assignments(3, MAIN)[0] == ['ok'] * 3
 
@@ -1887,6 +2056,39 @@ FAMILIES['page'] = ([Q('getblock', _bw(w), 'H') for w in PAGE_WINDOWS] +
                     [Q('getblock', _bw(w), 'D') for w in ('T:1:N', 'T:2:3', 'T:1:4', 'T:2:4')] +
                     [Q('gettransaction', 'K', 'H'), Q('gettransaction', 'L', 'D'), ['R', 'H']])
 REDUCED['page'] = [Q('getblock', _bw(w), 'H') for w in ('T:1:2', 'T:2:2', 'T:3:2', 'T:1:4', 'T:1:N', 'F:1:N')]
+
+
+# balance queries over a LIST of addresses: every shape (number of addresses n, addresses_per_request r) that cuts
+# the list differently - one request, n requests of one address, a last request of exactly one address
+# (n % r == 1), r == n, r > n, the documented default of five per request with six addresses - in several address
+# orders, before / after the cache learnt an address through its history, its utxo list or a balance query of its
+# own, with the first or all providers down, reopened, after the block count expired.  After every query the
+# returned total is compared with the provider answers for exactly the requests that were made plus the cached
+# balances of the addresses that were not requested, and the cached record of every address is inspected.
+def B(key, health='H'):
+    return Q('getbalance', key, health)
+
+
+BATCH_PREP = [Q('gettransactions', 'Y20', 'H'), Q('gettransactions', 'Z20', 'H'), Q('getutxos', 'Y', 'H')]
+BATCH_FAULTS = [B('YWZ:2', 'F'), B('Z', 'F'), B('YWZ:2', 'D'), B('Z', 'D'), ['R', 'H'], ['T', 61]]
+FAMILIES['batch'] = ([B(k) for k in ('YWZ:2', 'ZWY:2', 'WZY:2', 'YWZ:1', 'YWZ', 'YWZ:3', 'YW:1', 'ZY', 'YW:2',
+                                     'Y', 'W', 'Z', 'Z:1', 'XYWZ:3', 'XYWZVU')] + BATCH_PREP + BATCH_FAULTS)
+REDUCED['batch'] = [Q('gettransactions', 'Z20', 'H'), B('YWZ:2'), B('Z'), B('ZWY:1'), Q('getutxos', 'Y', 'H'),
+                    ['R', 'H']]
+
+
+def batch_thorough_alphabet():
+    """Every order of three and of two of the addresses Y, W, Z x addresses_per_request {1, 2, not passed}, the
+    single addresses, r == n, four and six addresses, and the other events of the quick alphabet."""
+    keys = []
+    for n in (3, 2):
+        for perm in itertools.permutations('YWZ', n):
+            for r in (':1', ':2', ''):
+                keys.append(''.join(perm) + r)
+    keys += ['YWZ:3', 'Y', 'W', 'Z', 'Z:1', 'X', 'XYWZ:3', 'YWZX:2', 'ZXWY:3', 'XYWZVU', 'UVZWYX', 'XYWZVU:5',
+             'XYWZV', 'XYWZVU:4']
+    return ([B(k) for k in keys] + BATCH_PREP + [Q('gettransactions', 'W20', 'H'), Q('getutxos', 'Z', 'H'),
+                                                 Q('gettransactions', 'Y1', 'H'), B('ZWY:1', 'F')] + BATCH_FAULTS)
 
 
 def histories(alphabet, length):
@@ -2086,9 +2288,15 @@ def run(ctx):
             plan = [(NET, {}, 2), (NET, {'max_errors': 4}, 3 if q else 4)]
             if not q:
                 plan += [(NET, {'max_errors': 2}, 3), (NET, {'min_providers': 2}, 2), ('testnet', {'max_errors': 4}, 2)]
+        if fam == 'batch':
+            plan = [(NET, {}, 2), (NET, {'max_errors': 4}, 3 if q else 4)]
+            if not q:
+                plan += [(NET, {'max_errors': 3}, 2), (NET, {'min_providers': 2}, 2)]
         for net, cfg, ln in plan:
             red = cfg == {'max_errors': 4} or (q and net != NET)
             alpha = REDUCED[fam] if red else alphabet
+            if fam == 'batch' and not q and cfg == {}:
+                alpha = batch_thorough_alphabet()
             if fam == 'page' and ln >= 3 and not red:
                 alpha = alphabet[:18]       # the 14 healthy windows and the 4 with the first provider down
             if fam == 'addr' and (q or ln >= 3):
@@ -2099,6 +2307,11 @@ def run(ctx):
             hb['%s/%s/%s' % (fam, net, json.dumps(cfg, sort_keys=True))] = '%d events ^ %d = %d histories' % (
                 len(alpha), ln, len(hs))
     bounds['cache_histories'] = hb
+    bounds['batched_balance_queries'] = (
+        'family batch: getbalance(list, addresses_per_request) shapes %s; thorough: every order of 3 and of 2 of '
+        '{Y,W,Z} x addresses_per_request {1,2,default}, 4/5/6 addresses with 2,3,4,5,default per request (%d events)'
+        % ([e[2] for e in FAMILIES['batch'] if e[0] == 'Q' and e[1] == 'getbalance' and e[3] == 'H'],
+           len(batch_thorough_alphabet())))
     bounds['cache_history_events'] = FAMILIES
     bounds['cache_history_events_reduced'] = REDUCED
     if _want(ctx, 'hist'):
